@@ -42,6 +42,8 @@ PIPELINE = {
          "field_name_conditions": [{"type": "include_fields", "fields": ["failfield"]}]},
         {"id": "ph", "type": "value_placeholders", "include": ["known"]},
     ],
+    # query post-processing: an emitted query must carry it whether or not a correlation rule refers to the rule
+    "postprocessing": [{"type": "embed", "prefix": "<P ", "suffix": " P>"}],
 }
 FAIL_KINDS = ["rule_failure", "item_failure", "placeholder", "bool_keyword", "cidr_keyword", "unsupported_cased",
               "missing_detection", "second_condition_missing", "noteq_unsupported", "unsupported_fieldref_kw"]
@@ -83,7 +85,7 @@ def make_rule(i: int, fail: str | None, nconds: int, product: str):
     return d
 
 
-def _convert(cfg, docs, use_pipeline: bool, collect: bool):
+def _convert(cfg, docs, use_pipeline: bool, collect: bool, nocorr: bool = False):
     from sigma.collection import SigmaCollection
     from sigma.processing.pipeline import ProcessingPipeline
 
@@ -94,7 +96,8 @@ def _convert(cfg, docs, use_pipeline: bool, collect: bool):
     pipeline = ProcessingPipeline.from_dict(copy.deepcopy(PIPELINE)) if use_pipeline else None
     from vf.target.correlation import correlation_attrs
     backend = make_backend(cfg, pipeline, collect_errors=collect,
-                           extra_attrs=dict(correlation_attrs({}), **{"query_expression": "{query} ##idx={state[index]}", "state_defaults": {"index": "none"}}))
+                           extra_attrs=dict(correlation_attrs({}), **{"query_expression": "{query} ##idx={state[index]}", "state_defaults": {"index": "none"}},
+                                            **({"correlation_methods": None} if nocorr else {})))
     coll = SigmaCollection.from_dicts(copy.deepcopy(docs))
     try:
         res = backend.convert(coll)
@@ -123,7 +126,8 @@ def check_case(case: dict) -> Outcome:
         if bool(f) != (s[0] == "raised"):
             out.skipped = f"plan/solo disagreement at {i}: plan={f} solo={s[:2]}"
             return out
-    got = _convert(cfg, docs + ([corr] if corr else []), use_p, collect)
+    nocorr = bool(case.get("nocorr")) and bool(corr) and collect  # a backend without correlation support
+    got = _convert(cfg, docs + ([corr] if corr else []), use_p, collect, nocorr)
     silenced = set()
     corr_fails = False
     if corr:
@@ -132,7 +136,9 @@ def check_case(case: dict) -> Outcome:
         ref_idx = [i for i, d in enumerate(docs) if d.get("name") in refs]
         if not corr["correlation"].get("generate"):
             silenced = set(ref_idx)
-        corr_fails = any(plan[i] for i in ref_idx)
+        corr_fails = any(plan[i] for i in ref_idx) or nocorr
+        if nocorr:
+            out.label("backend-without-correlation-support")
     exp_queries = [q for i, s in enumerate(solo) if s[0] == "ok" and i not in silenced for q in s[1]]
     if corr and not corr_fails:
         sub = _convert(cfg, [docs[i] for i in ref_idx] + [corr], use_p, False)
@@ -206,6 +212,7 @@ def cases(draw):
         refs = draw(st.lists(st.sampled_from([f"rn{i}" for i in range(n)]), min_size=1, max_size=2, unique=True))
         case["corr"] = {"title": "corr", "correlation": {"type": "event_count", "rules": refs, "timespan": "5m", "condition": {"gte": 2},
                                                         "generate": draw(st.booleans())}}
+        case["nocorr"] = draw(st.integers(0, 3)) == 0
     return case
 
 
